@@ -24,7 +24,7 @@ class OrderBookSetup(Contract):
 
     def cases(self):
         return [dict(full=f, costs_only=co, tg=tg) for f in (False, True) for co in (False, True)
-                for tg in ('given', 'preset') if not (tg == 'preset' and (co or f))]
+                for tg in ('given', 'preset', 'same') if not (tg != 'given' and (co or f))]
 
     def harness(self, H, case):
         g = mk_root_grid(H)
@@ -46,6 +46,14 @@ class OrderBookSetup(Contract):
             g.set('discount_factors', Arr(g.get('T'), lambda k: df(lift(k))))
             g.set('restricted', R)
             tg_arg = None
+        elif case['tg'] == 'same':
+            # the asset already holds this very grid object, whose derived cache was overwritten by ANOTHER asset since
+            # (other window, other wacc): the set-up has to rebuild it all the same (C10 / C20: no short cut on identity)
+            self_obj.set('timegrid', g)
+            sdf = disc_fun(H, 'stale')
+            g.set('restricted', mk_restricted(H, g, pfx='stale', df=sdf))
+            g.set('discount_factors', Arr(g.get('T'), lambda k: sdf(lift(k))))
+            tg_arg = g
         else:
             g.set('restricted', Havoc('stale cache: restricted grid of an earlier set-up'))
             g.set('discount_factors', Havoc('stale cache: discount factors of an earlier set-up'))
@@ -228,7 +236,13 @@ class OrderBookSetup(Contract):
                   'capa': np.array([float(x) for x in P['o_capa']]), 'price': np.array([float(x) for x in P['o_price']])}
         a = eao.assets.OrderBook(name='asset_name', nodes=eao.assets.Node('node0'), wacc=float(P['wacc']), orders=orders,
                                  full_exec=case['full'])
-        if case['tg'] == 'preset':
+        if case['tg'] == 'same':
+            a.set_timegrid(tg)
+            _pts = list(tg.timepoints) + [tg.end]
+            _other = eao.assets.SimpleContract(name='other asset', nodes=eao.assets.Node('elsewhere'), start=_pts[min(1, len(_pts) - 1)], end=_pts[-1], wacc=0.37)
+            _other.set_timegrid(tg)      # overwrites the shared grid's restricted part and discount factors
+            call = lambda: a.setup_optim_problem(None, tg, case['costs_only'])
+        elif case['tg'] == 'preset':
             a.set_timegrid(tg)
             call = lambda: a.setup_optim_problem(None, None, case['costs_only'])
         else:
